@@ -11,6 +11,8 @@ import (
 	"runtime/debug"
 	"strings"
 	"testing"
+
+	"github.com/dgraph-io/badger/v4"
 )
 
 type val struct {
@@ -18,6 +20,7 @@ type val struct {
 	Label string `json:"label"`
 	Hex   string `json:"hex"`
 	Int   string `json:"int"`
+	Args  string `json:"args"`
 }
 
 type cex struct {
@@ -31,6 +34,7 @@ var (
 	covers  []string
 	tier    int
 	unreal  bool
+	ufs     map[string]string
 )
 
 type unrealisable struct{ why string }
@@ -124,11 +128,23 @@ func Catch(f func()) (panicked bool) {
 	return false
 }
 
+// UFBytes looks the application up by (function, argument bytes): the order in which
+// the code under test asks is not fixed (Go map iteration), the answers are.
 func UFBytes(name string, n int, args ...[]byte) []byte {
-	v := pop("uf")
-	b, err := hex.DecodeString(v.Hex)
-	if err != nil || len(b) != n || v.Label != name {
-		panic(unrealisable{fmt.Sprintf("uf %s: want %d bytes of %s got %d", name, n, v.Label, len(b))})
+	var ab []byte
+	for _, a := range args {
+		ab = append(ab, byte(len(a)))
+		ab = append(ab, a...)
+	}
+	key := name + ":" + hex.EncodeToString(ab)
+	h, ok := ufs[key]
+	if !ok {
+		// an application the symbolic path never made: the model says nothing about it
+		panic(unrealisable{fmt.Sprintf("uf %s applied to arguments the model does not define", name)})
+	}
+	b, err := hex.DecodeString(h)
+	if err != nil || len(b) != n {
+		panic(unrealisable{fmt.Sprintf("uf %s: want %d bytes got %d", name, n, len(b))})
 	}
 	return b
 }
@@ -163,7 +179,14 @@ func RunReplay(t *testing.T, entries map[string]func()) {
 	if err := json.Unmarshal(raw, &c); err != nil {
 		t.Fatalf("ZZ-REPLAY-ERROR bad json: %v", err)
 	}
-	vals = c.Values
+	ufs = map[string]string{}
+	for _, v := range c.Values {
+		if v.Kind == "uf" {
+			ufs[v.Label+":"+v.Args] = v.Hex
+		} else {
+			vals = append(vals, v)
+		}
+	}
 	f, ok := entries[entry]
 	if !ok {
 		t.Fatalf("ZZ-REPLAY-ERROR unknown entry %q", entry)
@@ -191,3 +214,15 @@ func RunReplay(t *testing.T, entries map[string]func()) {
 	fmt.Printf("ZZ-CONSUMED %d/%d\n", pos, len(vals))
 	fmt.Printf("ZZ-DONE\n")
 }
+
+// NewKV: a real in-memory Badger; replaying on it validates the engine's KV model.
+func NewKV() *badger.DB {
+	opts := badger.DefaultOptions("").WithInMemory(true).WithLoggingLevel(badger.ERROR).WithMetricsEnabled(false)
+	db, err := badger.Open(opts)
+	if err != nil {
+		panic(err)
+	}
+	return db
+}
+
+func KVConflicts() {}
